@@ -92,7 +92,8 @@ def run_case(case, expect_fault=False):
     obs = {"raised": None, "hang": False}
     res = None
     coop = case.get("ctx") == "coop"
-    patched = coopctx.Patched(case["sched_seed"], case.get("policy", "random"), n_workers) if coop else fakectx.Patched(sched, n_workers)
+    cores = case.get("cores", [None, 1, 2, 64][(n_workers + len(items)) % 4])
+    patched = coopctx.Patched(case["sched_seed"], case.get("policy", "random"), n_workers, cores) if coop else fakectx.Patched(sched, n_workers, cores)
     with patched as ctx:
         try:
             res = helpers.parallel_add(arg_items, cb, n_workers=n_workers, **kw, **extra)
